@@ -35,8 +35,8 @@ func c16Run(t *testing.T, root string, T time.Duration, seq []int) (closedAtStep
 		synctest.Wait()
 		m := newModel(root, false)
 		script := c16Script()
-		ri := 0           // current request
-		delivered := 0    // bytes of the current request delivered
+		ri := 0            // current request
+		delivered := 0     // bytes of the current request delivered
 		waitStart := start // instant the server started waiting for the current request
 		cur := script[0].Encode()
 		fail := func(sg, f string, a ...any) {
